@@ -163,6 +163,8 @@ def run(c, index, tier):
         _viol(c, seen, "n_iter", (strategy,), "n_iter_=%r exceeds max_iter=%d" % (model.n_iter_, max_iter))
 
     # ---- predictions
+    held = [("labels_ of fit", labels, C.ahash(labels))]
+    truthy = ch.choice("w", ["True", "numpy.True_"], "balanced-value")
     for bi, Xb in enumerate(batches):
         m = Xb.shape[0]
         model.balanced_predictions = False
@@ -172,17 +174,22 @@ def run(c, index, tier):
             _viol(c, seen, "predict-raised", ("plain", type(p).__name__, U.where_raised(p)), "predict raised %s" % U.short_exc(p))
         else:
             p = numpy.asarray(p)
-            dist = ((Xb[:, None, :] - centers[None, :, :]) ** 2).sum(axis=2)
+            dist = ((Xb[:, None, :].astype(numpy.float64) - centers[None, :, :].astype(numpy.float64)) ** 2).sum(axis=2)
             if p.shape != (m,) or p.min() < 0 or p.max() >= k:
                 _viol(c, seen, "labels-range", ("predict",), "predict returned invalid labels")
             else:
                 chosen = dist[numpy.arange(m), p]
                 best = dist.min(axis=1)
-                if numpy.any(chosen > best + 1e-9 * (1 + best)):
+                # the library's distances come from the |x|^2 - 2xc + |c|^2
+                # expansion in the dtype of the data: rounding is relative to
+                # the squared norms, not to the distance
+                Xb64, c64 = Xb.astype(numpy.float64), centers.astype(numpy.float64)
+                scale = 1 + best + (Xb64**2).sum(axis=1) + (c64**2).sum(axis=1).max()
+                if numpy.any(chosen > best + (1e-5 if Xb.dtype == numpy.float32 else 1e-9) * scale):
                     i = int(numpy.argmax(chosen - best))
                     _viol(c, seen, "nearest-centre", (), "predict gave row %d label %d at squared distance %r while centre %d is at %r" % (i, p[i], chosen[i], int(numpy.argmin(dist[i])), best[i]))
             c.log.ev("result", "predict", bi, C.ahash(p))
-        model.balanced_predictions = True
+        model.balanced_predictions = True if truthy == "True" else numpy.True_  # what a grid over a numpy array of booleans sets
         env()
         try:
             ok, pb = U.sut(c, "predict(balanced)", model.predict, Xb)
@@ -199,6 +206,7 @@ def run(c, index, tier):
             )
             continue
         pb = numpy.asarray(pb)
+        held.append(("balanced labels of batch %d" % bi, pb, C.ahash(pb)))
         c.log.ev("result", "predict-balanced", bi, C.ahash(pb))
         if pb.shape != (m,) or pb.min() < 0 or pb.max() >= k:
             _viol(c, seen, "labels-range", ("predict-balanced",), "balanced predict returned invalid labels %r" % sorted(set(pb.tolist())))
@@ -214,3 +222,8 @@ def run(c, index, tier):
                 "balanced predict gave cluster sizes %r for m=%d, k=%d: every cluster must have %d or %d points" % (hb.tolist(), m, k, m // k, -(-m // k)),
             )
     model.balanced_predictions = False
+    # the caller still holds the arrays the earlier calls returned
+    for what, arr, h in held:
+        if C.ahash(arr) != h:
+            _viol(c, seen, "result-overwritten", (what.split(" of ")[0],), "the %s, kept by the caller, were modified in place by a later call" % what)
+            break
